@@ -747,11 +747,18 @@ func stress(c *Ctx, round int, capacity int) bool {
 	fail := func(s string) { failMu.Lock(); fails = append(fails, s); failMu.Unlock() }
 	var wg sync.WaitGroup
 	results := make([][]*cycle, nS)
+	// a panic inside the dispatcher is an oracle failure, not a crash of the harness
+	caught := func(who string) {
+		if r := recover(); r != nil {
+			fail(fmt.Sprintf("class=conc-panic: %s panicked: %v", who, r))
+		}
+	}
 
 	for p := 0; p < nP; p++ {
 		wg.Add(1)
 		go func(p int) {
 			defer wg.Done()
+			defer caught(fmt.Sprintf("poster %d", p))
 			failed := 0
 			for seq := uint64(0); seq < uint64(perPoster) && failed < 3; seq++ {
 				stoppedBefore := atomic.LoadUint32(&stopReturned) == 1
@@ -783,6 +790,7 @@ func stress(c *Ctx, round int, capacity int) bool {
 		wg.Add(1)
 		go func(s int) {
 			defer wg.Done()
+			defer caught(fmt.Sprintf("subscriber %d", s))
 			g := nP + s
 			for k, tys := range plans[s].cycles {
 				cy := &cycle{tys: tys, lo: make([]uint64, nP), hi: make([]uint64, nP)}
@@ -804,6 +812,8 @@ func stress(c *Ctx, round int, capacity int) bool {
 				}
 				consumed := make(chan struct{})
 				go func() {
+					defer close(consumed)
+					defer caught("consumer")
 					for ev := range sub.Chan() {
 						if ev == nil {
 							fail("class=conc-spurious: nil event received")
@@ -816,7 +826,6 @@ func stress(c *Ctx, round int, capacity int) bool {
 						}
 						cy.recv = append(cy.recv, [2]uint64{uint64(t), v})
 					}
-					close(consumed)
 				}()
 				for i := plans[s].spins[k]; i > 0; i-- {
 					runtime.Gosched()
@@ -839,6 +848,7 @@ func stress(c *Ctx, round int, capacity int) bool {
 		wg.Add(1)
 		go func() {
 			defer wg.Done()
+			defer caught("stopper")
 			g := nP + nS
 			for atomic.LoadUint64(&totalDone) < uint64(stopAfter) {
 				runtime.Gosched()
@@ -879,7 +889,7 @@ func stress(c *Ctx, round int, capacity int) bool {
 		return false
 	}
 	if !withStop {
-		d.Stop()
+		func() { defer caught("final Stop"); d.Stop() }()
 	}
 	// judge the subscriptions (all goroutines are done: plain reads are safe)
 	total := nP * perPoster
@@ -987,36 +997,34 @@ func runC39(c *Ctx) error {
 		t0 = time.Now()
 	}
 	nontrivial := 0
-	nSmall := c.N(1500, 15000)
-	for i := 0; i < nSmall; i++ {
-		if !runCase(c, genSmall(c.Rng, c.Stats), capacity, "small", &nontrivial) {
-			break
-		}
+	nSmall := c.N(1500, 8000)
+	alive := true // false once an operation blocked: the process is then not trustworthy any more
+	for i := 0; i < nSmall && alive; i++ {
+		alive = runCase(c, genSmall(c.Rng, c.Stats), capacity, "small", &nontrivial)
 	}
 	lap("small")
-	if capacity <= 300000 {
-		for i := c.N(6, 30); i > 0; i-- {
-			if !runCase(c, genBig(c.Rng, capacity), capacity, "big", &nontrivial) {
-				break
-			}
+	if !alive {
+		c.Stats.Count("aborted_after_blocked_history")
+	} else if capacity <= 300000 {
+		for i := c.N(6, 30); i > 0 && alive; i-- {
+			alive = runCase(c, genBig(c.Rng, capacity), capacity, "big", &nontrivial)
 		}
 	} else {
 		c.Stats.Count("big_cases_skipped_capacity_too_large")
 	}
 	lap("big")
-	for r := c.N(150, 1500); r > 0; r-- {
-		if !stress(c, r, capacity) {
-			break
-		}
+	for r := c.N(150, 1500); r > 0 && alive; r-- {
+		alive = stress(c, r, capacity)
 	}
 	lap("stress")
-	// the generator must not be degenerate
+	// the generator must not be degenerate (judged only when the implementation behaved:
+	// a broken dispatcher distorts the distribution and is reported by the oracle instead)
 	for _, k := range []string{"res_RGot", "res_REmpty", "res_RClosed", "res_RPostClosed", "res_RPostOk", "res_RSubDup", "res_RNil", "res_RSub"} {
-		if c.Stats.Distribution[k] < 20 {
+		if len(c.Stats.OracleFailures) == 0 && c.Stats.Distribution[k] < 20 {
 			return fmt.Errorf("degenerate generator: only %d results of kind %s", c.Stats.Distribution[k], k)
 		}
 	}
-	if nontrivial*2 < nSmall {
+	if len(c.Stats.OracleFailures) == 0 && nontrivial*2 < nSmall {
 		return fmt.Errorf("degenerate generator: only %d of %d histories deliver an event", nontrivial, nSmall)
 	}
 	c.Stats.Rule = "sequential histories over {Subscribe(0-4 types, sometimes duplicated), Post, batch of posts, Unsubscribe (also repeated / on the nil handle of a failed Subscribe), Stop, non-blocking receive, batch of receives, Closed()} on 1-5 event types and any number of subscriptions, four generator profiles (mixed, stop-heavy, malformed, one type with many subscribers), every history drained at the end; a history is non-trivial when at least one subscription was created and at least one event was received; plus histories that fill one subscription's buffer to capacity-3..capacity+3 (capacity = cap(sub.Chan()) of the implementation) and keep posting/receiving at the boundary; plus concurrent rounds (2-4 posters, 2-5 subscribers each joining and leaving 1-3 times, optional Stop) judged by schedule-independent assertions only. Implementation results are judged by the direct oracle (in order, once, nothing outside the lifetime or the types, nothing lost unless the buffer was full, Post fails exactly after Stop, no panic, termination) and compared with the Coq model's results (sequential histories)."
